@@ -11,6 +11,7 @@ the transposition between four consecutive blocks and four row vectors.
 import SkinnyVerif.Lemmas.AllConfigs
 import SkinnyVerif.Gen.Vec128LeafLanes
 import SkinnyVerif.Gen.Vec128Pieces
+import SkinnyVerif.Basic.Segments
 
 namespace SkinnyVerif.Lemmas
 open SkinnyVerif SkinnyVerif.Gen SkinnyVerif.Impl SkinnyVerif.Spec.Skinny
@@ -128,10 +129,14 @@ def packT (t : BitVec 32 × BitVec 32 × BitVec 32 × BitVec 32) : BitVec 128 :=
 def laneRows (rows : BitVec 128 × BitVec 128 × BitVec 128 × BitVec 128) (j : Nat) : BitVec 32 × BitVec 32 × BitVec 32 × BitVec 32 :=
   (lane 32 j rows.1, lane 32 j rows.2.1, lane 32 j rows.2.2.1, lane 32 j rows.2.2.2)
 
+/-- load / store lemmas: both sides are or-of-shifted-segment images; compare them byte lane by byte lane,
+computing each lane in one pass over the segments (`Basic/Segments.lean`) -/
 syntax "vec_ls" : tactic
 macro_rules
   | `(tactic| vec_ls) => `(tactic|
-    (bv_bits 128 <;> simp [gen_unfold, packT, laneRows, pack4_getElem, lane, extractLsb'_extractLsb'_le]))
-
+    (simp only [gen_unfold, packT, laneRows, pack4, lane, Nat.reduceMul]
+     apply eq_of_lanes 8 16 (by decide) (by decide)
+     intro i hi
+     nat_cases i 16 <;> (simp only [lane, Nat.reduceMul, extractLsb'_extractLsb'_le, Nat.reduceAdd]; seg_windows; try (bv_bits 8 <;> simp))))
 
 end SkinnyVerif.Lemmas
